@@ -6,6 +6,8 @@ children dict, the deep-immutable refusals (DESIGN.md section 5, C19)."""
 import itertools
 
 from sa.h import *
+from sa.index import Module
+from sa.tables import ConstEval, _Return
 
 EXPLANATION = (
     "Decided (table agreement + path rules): (1) _pack_normalized_children joins exactly as many netstring-framed "
@@ -44,15 +46,31 @@ EXPLANATION = (
     "parsed cap is UnknownURI, it recorded an error): no exception / unset attribute; a write cap offered to an "
     "immutable directory is refused; rw_uri stays None under deep_immutable; a recorded constraint error is never "
     "ignored (and the parse is told deep_immutable); ro-only, rw+ro (mutable parent, ro not imm.) and a single prefixed "
-    "cap keep their caps in the expected slots without error; caps vanish only together with an error. "
+    "cap keep their caps in the expected slots without error; caps vanish only together with an error; (12) "
+    "uri.from_string is interpreted (the engine's bounded AST interpreter, extended by try/except/isinstance and class "
+    "tokens) on a well-formed cap string of every cap class (BASE_STRING) x {no prefix, 'ro.', 'imm.'} x deep_immutable: "
+    "whenever the context permits the kind (constant is_readonly()/is_mutable() of the class: immutable kinds always, "
+    "read-only mutable kinds unless 'imm.'/deep_immutable, writeable kinds only bare in a mutable context) the result "
+    "is that class and no error, and a mutable kind in an immutable context carries an error; (13) the key of a new "
+    "directory's initial children: create_new_mutable_directory packs them inside the contents callable with "
+    "<node>.get_writekey() (not deep_immutable, the given children, the packed string returned), create_mutable_file "
+    "hands that callable to create_with_keys, create_with_keys stores the attribute get_writekey() reads on every "
+    "path before it invokes the callable (directly or through a method that calls its parameter) with self, and "
+    "uploads its result; pack_children forwards its writekey; DirectoryNode._pack_contents and _decrypt_rwcapdata "
+    "use the same key expression. "
     "Undecided: JSON and Unicode library behaviour, netstring codec itself (covered by its unit tests), AES; which "
     "exception type / message a refusal carries; the contents of the MAC (readers ignore it); the modifiers' own "
     "semantics (must_exist, overwrite, metadata merging - not part of the round trip); whether "
     "_create_and_validate_node raises for a child that recorded an error or leaves it to the caller's "
     "is_allowed_in_immutable_directory() filter; the values of the prefixes inside UnknownNode (C19.6 decides the "
-    "tests around each prefix operation, not which prefix a stored cap ends up with beyond that).")
+    "tests around each prefix operation, not which prefix a stored cap ends up with beyond that); whether a cap "
+    "string that is not well-formed for its class is handled (BadURIError path), and the regular expressions of the "
+    "cap classes (C19.12 takes K.init_from_string of a well-formed string to succeed); that derive_mutable_keys gives "
+    "the right key (C19.13 decides only that the key is stored before the callable runs).")
 TECHNIQUE = ("static analysis: writer/reader table agreement over def-use closures, CFG gate rules, constant folding, "
-             "truth-table equivalence of predicate methods, exhaustive abstract execution of UnknownNode.__init__")
+             "truth-table equivalence of predicate methods, exhaustive abstract execution of UnknownNode.__init__, "
+             "AST interpretation of uri.from_string over every cap kind and context, must-precede of the key store "
+             "before the initial-contents callable")
 
 DN = "dirnode:DirectoryNode"
 PACK = "dirnode:_pack_normalized_children"
@@ -540,6 +558,233 @@ class InitEval:
         if err is UNSET or rw is UNSET or ro is UNSET:
             return CRASH                   # raise_error() / get_write_uri() would fail with AttributeError
         return {"error": self.truthy(err), "rw": rw, "ro": ro}
+
+
+# ---- concrete interpretation of uri.from_string (C19.12) --------------------------
+class _Raised(Exception):
+    def __init__(self, exc):
+        Exception.__init__(self, "raised")
+        self.exc = exc
+
+
+class CapParseEval(ConstEval):
+    """The engine's bounded AST interpreter, extended just far enough to run uri.from_string on a concrete cap
+    string: try/except/raise, isinstance, and tokens for the package's classes.  `K.init_from_string(..)` / `K(..)` of
+    a cap class gives ('parsed', K) without looking into the class (the probes are well-formed by assumption),
+    `UnknownURI(u, error=E)` gives ('unknown', E), an exception class gives ('exc', name).  Module-level helper
+    functions are interpreted too, so the parse may be split up or table-driven.  Anything else -> NotConstant
+    (reported as an analysis error: fail closed)."""
+
+    _METHODS = set(ConstEval._METHODS) | {"removeprefix", "removesuffix", "partition", "rpartition"}
+
+    def __init__(self, folder, module):
+        ConstEval.__init__(self, folder, module)
+        self.idx = folder.idx
+
+    # -- statements
+    def stmt(self, st, env):
+        if isinstance(st, ast.Try):
+            self.tick()
+            try:
+                try:
+                    self.block(st.body, env)
+                except _Raised as ex:
+                    for h in st.handlers:
+                        if h.type is None or self._catches(self.expr(h.type, env), ex.exc):
+                            if h.name:
+                                env[h.name] = ex.exc
+                            self.block(h.body, env)
+                            break
+                    else:
+                        raise
+                else:
+                    self.block(st.orelse, env)
+            finally:
+                self.block(st.finalbody, env)
+            return
+        if isinstance(st, ast.Raise):
+            self.tick()
+            if st.exc is None:
+                raise NotConstant("bare raise")
+            v = self.expr(st.exc, env)
+            if isinstance(v, type) and issubclass(v, BaseException):
+                v = ("exc", v.__name__, None)
+            if isinstance(v, tuple) and v and v[0] == "cls":
+                v = ("exc", v[1].name, v[1])
+            if not (isinstance(v, tuple) and v and v[0] == "exc"):
+                raise NotConstant("raise of a non-exception")
+            raise _Raised(v)
+        if isinstance(st, ast.AnnAssign):
+            if st.value is not None:
+                self.assign(st.target, self.expr(st.value, env), env)
+            return
+        return ConstEval.stmt(self, st, env)
+
+    def _is_exc_class(self, ci):
+        return any(c.name.endswith("Error") or c.name.endswith("Exception") for c in ci.mro()) or \
+            ci.is_subclass_of("Exception")
+
+    def _catches(self, t, exc):
+        if isinstance(t, (tuple, list)) and not (t and t[0] in ("cls",)):
+            return any(self._catches(x, exc) for x in t)
+        if isinstance(t, type):
+            if exc[2] is not None:
+                return t in (Exception, BaseException) or any(t.__name__ in c.opaque_bases for c in exc[2].mro())
+            import builtins
+            k = getattr(builtins, exc[1], None)
+            return isinstance(k, type) and issubclass(k, t)
+        if isinstance(t, tuple) and t and t[0] == "cls":
+            return exc[2] is not None and t[1] in exc[2].mro()
+        raise NotConstant("except clause of an unknown type")
+
+    # -- expressions
+    def expr(self, e, env):
+        self.tick()
+        try:
+            return self._expr(e, env)
+        except (NotConstant, _Return, _Raised):
+            raise
+        except RecursionError:
+            raise NotConstant("constexpr recursion")
+        except Exception as ex:
+            raise NotConstant("constexpr: %s" % ex)
+
+    def _name(self, name):
+        tgt = self.idx.resolve_name(self.module, name)
+        if isinstance(tgt, ClassInfo):
+            return ("cls", tgt)
+        if isinstance(tgt, FuncInfo):
+            return ("fn", tgt)
+        import builtins
+        k = getattr(builtins, name, None)
+        if isinstance(k, type) and issubclass(k, BaseException):
+            return k
+        vals = self.module.assigns.get(name)
+        if vals and len(vals) == 1:
+            return self.expr(vals[0], {})
+        raise NotConstant("%s.%s" % (self.module.name, name))
+
+    def _isinstance(self, v, t):
+        if isinstance(t, (tuple, list)) and not (t and t[0] == "cls"):
+            return any(self._isinstance(v, x) for x in t)
+        if isinstance(t, type):
+            if isinstance(v, tuple) and v and v[0] in ("parsed", "unknown", "exc", "cls", "fn"):
+                return t is object
+            return isinstance(v, t)
+        if isinstance(t, tuple) and t and t[0] == "cls":
+            if isinstance(v, tuple) and v and v[0] == "parsed":
+                return t[1] in v[1].mro()
+            if isinstance(v, tuple) and v and v[0] == "unknown":
+                return t[1].name == "UnknownURI"
+            if isinstance(v, tuple) and v and v[0] == "exc":
+                return v[2] is not None and t[1] in v[2].mro()
+            return False
+        raise NotConstant("isinstance against an unknown type")
+
+    def _construct(self, ci, args, kwargs):
+        if ci.name == "UnknownURI":
+            init = ci.lookup("__init__")
+            ps = first_positional_params(init) if init is not None else []
+            err = kwargs.get("error")
+            if err is None and "error" in ps and ps.index("error") < len(args):
+                err = args[ps.index("error")]
+            return ("unknown", err)
+        if self._is_exc_class(ci):
+            return ("exc", ci.name, ci)
+        if ci.lookup("init_from_string") is not None:
+            return ("parsed", ci)
+        raise NotConstant("construction of %s" % ci.name)
+
+    def _invoke(self, fn, args, kwargs):
+        if fn.cls is not None or isinstance(fn.node, ast.Lambda):
+            raise NotConstant("call of %s" % fn.qual)
+        sub = CapParseEval(self.folder, fn.module)
+        sub.steps = self.steps
+        try:
+            return sub.call(fn, args, kwargs)
+        finally:
+            self.steps = sub.steps
+
+    def _expr(self, e, env):
+        if isinstance(e, ast.Name):
+            if e.id in env or e.id in self._BUILTINS:
+                return ConstEval._expr(self, e, env)
+            try:
+                return ConstEval._expr(self, e, env)
+            except NotConstant:
+                return self._name(e.id)
+        if isinstance(e, ast.NamedExpr) and isinstance(e.target, ast.Name):
+            v = self.expr(e.value, env)
+            env[e.target.id] = v
+            return v
+        if isinstance(e, ast.Attribute):
+            try:
+                return self.folder.fold(e, self.module, None)
+            except NotConstant:
+                pass
+            recv = self.expr(e.value, env)
+            if isinstance(recv, tuple) and recv and recv[0] in ("cls", "parsed"):
+                return self.folder.class_attr(recv[1], e.attr)
+            raise NotConstant("attribute %s" % ast.unparse(e))
+        if isinstance(e, ast.JoinedStr):
+            return "<formatted>"
+        if isinstance(e, ast.BinOp) and isinstance(e.op, ast.Mod):
+            l = self.expr(e.left, env)
+            if isinstance(l, (str, bytes)):
+                self.expr(e.right, env)
+                return l                      # a message: its text is irrelevant
+        if isinstance(e, ast.Call):
+            f = e.func
+            if any(isinstance(a, ast.Starred) for a in e.args) or any(k.arg is None for k in e.keywords):
+                raise NotConstant("*/** arguments")
+            args = [self.expr(a, env) for a in e.args]
+            kwargs = {k.arg: self.expr(k.value, env) for k in e.keywords}
+            if isinstance(f, ast.Name) and f.id == "isinstance" and f.id not in env and len(args) == 2:
+                return self._isinstance(args[0], args[1])
+            if isinstance(f, ast.Name) and f.id in self._BUILTINS and f.id not in env:
+                return self._BUILTINS[f.id](*args, **kwargs)
+            if isinstance(f, ast.Attribute):
+                recv = self.expr(f.value, env) if not isinstance(self.idx.resolve_expr(self.module, f.value), Module) \
+                    else None
+                if isinstance(recv, (bytes, str, list, dict, set, tuple)) and not (
+                        isinstance(recv, tuple) and recv and recv[0] in ("cls", "parsed", "unknown", "exc", "fn")):
+                    if f.attr in self._METHODS:
+                        return getattr(recv, f.attr)(*args, **kwargs)
+                    raise NotConstant("method %s" % f.attr)
+                if isinstance(recv, tuple) and recv and recv[0] == "cls":
+                    if f.attr == "init_from_string" and recv[1].lookup("init_from_string") is not None:
+                        if recv[1].name == "UnknownURI":
+                            return ("unknown", None)
+                        return ("parsed", recv[1])
+                    raise NotConstant("call of %s.%s" % (recv[1].name, f.attr))
+                if recv is None:
+                    tgt = self.idx.resolve_expr(self.module, f)
+                    if isinstance(tgt, FuncInfo):
+                        return self._invoke(tgt, args, kwargs)
+                    if isinstance(tgt, ClassInfo):
+                        return self._construct(tgt, args, kwargs)
+                raise NotConstant("call %s" % ast.unparse(f))
+            fv = self.expr(f, env)
+            if isinstance(fv, type) and issubclass(fv, BaseException):
+                return ("exc", fv.__name__, None)
+            if isinstance(fv, tuple) and fv and fv[0] == "cls":
+                return self._construct(fv[1], args, kwargs)
+            if isinstance(fv, tuple) and fv and fv[0] == "fn":
+                return self._invoke(fv[1], args, kwargs)
+            raise NotConstant("call %s" % ast.unparse(f))
+        return ConstEval._expr(self, e, env)
+
+
+def const_predicate(pe, ci, name):
+    """The constant a parameterless predicate method of `ci` returns (fail closed when it is not a constant)."""
+    m = ci.lookup(name)
+    if m is None:
+        raise AnchorVanished("cap class %s has no %s()" % (ci.name, name))
+    lv, rows = pe.rows([lambda env, _m=m: pe.run(ci, _m, env)])
+    vals = {v[0] for (_row, v) in rows}
+    if lv or len(vals) != 1 or RAISES in vals:
+        raise AnalysisError("%s.%s() is not a constant" % (ci.name, name))
+    return next(iter(vals))
 
 
 def implemented_interfaces(ci):
@@ -1669,3 +1914,306 @@ def run(ctx: Context):
                                       % (v_rw, v_ro, want[0], want[1])), row)
             if (rw or ro) and v_rw is None and v_ro is None and not err:
                 report("R5", "the given caps are dropped without recording an error", row)
+
+    # -- 12. uri.from_string accepts every cap kind in every context that permits it ------------
+    with ctx.rule("C19.12", "R5", "uri.from_string, interpreted on a well-formed cap string of every cap class x {no prefix, "
+                  "'ro.', 'imm.'} x deep_immutable: a kind the context permits (immutable kinds always; read-only "
+                  "mutable kinds unless 'imm.'/deep_immutable; writeable kinds only bare in a mutable context) is parsed "
+                  "as its class without an error, and a mutable kind in an immutable context carries an error",
+                  expected=18) as r:
+        fs = idx.func("uri:from_string")
+        umod = fs.module
+        folder = get_folder(idx)
+        if "deep_immutable" not in fs.params:
+            raise AnchorVanished("uri.from_string has no deep_immutable parameter")
+        ro_p = folder.module_const("uri", "ALLEGED_READONLY_PREFIX")
+        im_p = folder.module_const("uri", "ALLEGED_IMMUTABLE_PREFIX")
+        kinds = []
+        for ci in sorted((c for c in idx.classes.values() if c.module is umod), key=lambda c: c.qual):
+            if ci.lookup("init_from_string") is None or ci.lookup_attr("BASE_STRING") is None:
+                continue
+            try:
+                base = folder.class_attr(ci, "BASE_STRING")
+            except NotConstant as ex:
+                raise AnalysisError("cannot fold %s.BASE_STRING: %s" % (ci.name, ex))
+            if not isinstance(base, bytes) or not base:
+                raise AnalysisError("%s.BASE_STRING is not a byte string" % ci.name)
+            kinds.append((ci, base, const_predicate(pe, ci, "is_readonly"), const_predicate(pe, ci, "is_mutable")))
+        if not kinds:
+            raise AnchorVanished("no cap class with BASE_STRING and init_from_string in allmydata.uri")
+        for (ci, base, k_ro, k_mut) in kinds:
+            r.site(fs, None, ci.name)
+            said = set()
+            for deep in (False, True):
+                for (pname, pfx) in (("no prefix", b""), ("'ro.'", ro_p), ("'imm.'", im_p)):
+                    probe = pfx + base + b"aaaa"
+                    ev = CapParseEval(folder, umod)
+                    try:
+                        out = ev.call(fs, [probe], {"deep_immutable": deep})
+                    except _Raised as ex:
+                        out = ex.exc
+                    except NotConstant as ex:
+                        raise AnalysisError("cannot interpret uri.from_string(%r, deep_immutable=%s): %s" % (probe, deep, ex))
+                    r.count(1)
+                    may_mut = not deep and pfx != im_p
+                    may_write = not deep and pfx == b""
+                    permitted = (not k_mut or may_mut) and (k_ro or may_write)
+                    where = "%s, deep_immutable=%s" % (pname, deep)
+                    if not (isinstance(out, tuple) and out and out[0] in ("parsed", "unknown", "exc")):
+                        raise AnalysisError("uri.from_string(%r) gives %r: cannot classify" % (probe, out))
+                    if permitted:
+                        if out[0] == "parsed" and out[1] is ci:
+                            continue
+                        if out[0] == "parsed":
+                            what = "parsed as %s" % out[1].name
+                        elif out[0] == "exc":
+                            what = "answered with the exception %s" % out[1]
+                        elif out[1] is not None:
+                            what = "turned into an UnknownURI carrying %s" % (out[1][1] if isinstance(out[1], tuple) else "an error")
+                        else:
+                            what = "not recognised (plain UnknownURI)"
+                        key = ("refused", what)
+                        if key not in said:
+                            said.add(key)
+                            r.violation(ci.qual, fs.loc(), "uri.from_string: a %s cap (%s...) given with %s is %s although the "
+                                        "context permits this kind: such a child becomes an unknown/error node, is refused by "
+                                        "pack_children or read back as something else, so the directory does not round-trip"
+                                        % (ci.name, base.decode("ascii", "replace"), where, what))
+                    elif k_mut and (deep or pfx == im_p):
+                        if out[0] in ("unknown", "exc") and (out[0] == "exc" or out[1] is not None):
+                            continue
+                        key = ("accepted",)
+                        if key not in said:
+                            said.add(key)
+                            r.violation(ci.qual, fs.loc(), "uri.from_string: a mutable %s cap given with %s comes back "
+                                        "without an error: immutable directories no longer refuse mutable children"
+                                        % (ci.name, where))
+
+    # -- 13. the write key under which a new directory's initial children are packed ---------------
+    with ctx.rule("C19.13", "R1", "a new mutable directory packs its initial children with the write key of the file node being "
+                  "created: create_new_mutable_directory packs inside the contents callable with <node>.get_writekey() "
+                  "(never deep_immutable), create_mutable_file hands that callable to create_with_keys, which stores the "
+                  "derived key (the attribute get_writekey() reads) on every path before it invokes the callable with self "
+                  "and uploads what it returned; pack_children forwards the key; DirectoryNode writes and reads with one "
+                  "key expression", expected=7) as r:
+        MFN = "mutable.filenode:MutableFileNode"
+        nmf = idx.func("nodemaker:NodeMaker.create_new_mutable_directory")
+        cmf = idx.func("nodemaker:NodeMaker.create_mutable_file")
+        cwk = idx.func(MFN + ".create_with_keys")
+        mfn = idx.cls(MFN)
+
+        # (a) where the initial children are packed
+        def enclosing_callables(root, target):
+            """Lambda / nested def nodes of `root` that contain `target`, outermost first."""
+            path = []
+
+            def go(x, stack):
+                if x is target:
+                    path.extend(stack)
+                    return True
+                for ch in ast.iter_child_nodes(x):
+                    st2 = stack + [ch] if isinstance(ch, (ast.Lambda, ast.FunctionDef, ast.AsyncFunctionDef)) else stack
+                    if go(ch, st2):
+                        return True
+                return False
+            go(root, [])
+            return path
+        pcs = calls_in_func(nmf, "pack_children", into_lambda=True)
+        for nd in nmf.nested.values():
+            pcs += [c for c in calls_in_func(nd, "pack_children", into_lambda=True) if c not in pcs]
+        if not pcs:
+            raise AnchorVanished("create_new_mutable_directory no longer calls pack_children")
+        cms = calls_in_func(nmf, "create_mutable_file")
+        if not cms:
+            raise AnchorVanished("create_new_mutable_directory no longer calls create_mutable_file")
+        cm_params = first_positional_params(cmf)
+        if "contents" not in cm_params:
+            raise AnchorVanished("create_mutable_file has no contents parameter")
+        nm_defs = def_exprs(nmf)
+        handed = []                       # callables handed to create_mutable_file as the contents
+        for c in cms:
+            a = arg(c, cm_params.index("contents"), "contents")
+            for _hop in range(3):
+                if isinstance(a, ast.Name) and a.id not in nmf.nested and len(nm_defs.get(a.id, [])) == 1:
+                    a = nm_defs[a.id][0]
+            if isinstance(a, ast.Name) and a.id in nmf.nested:
+                a = nmf.nested[a.id].node
+            handed.append(a)
+        key_attr = None
+        for c in pcs:
+            r.site(nmf, c, "initial children packed")
+            encl = enclosing_callables(nmf.node, c)
+            wk = arg(c, 1, "writekey")
+            di = kwarg(c, "deep_immutable") or arg(c, 2)
+            r.require(di is None or (isinstance(di, ast.Constant) and di.value is False), nmf, nmf.loc(c),
+                      "the initial children of a mutable directory are packed with deep_immutable=%s: mutable children are "
+                      "refused" % (src(nmf, di) if di is not None else ""))
+            ch0 = arg(c, 0, "childrenx")
+            ip = first_positional_params(nmf)[0] if first_positional_params(nmf) else None
+            r.require(ch0 is not None and ip is not None and (ip in names_in(ch0) or ip in closure(nmf, [ch0])[0]), nmf,
+                      nmf.loc(c), "what is packed (%s) is not the given initial children" % (src(nmf, ch0) if ch0 is not None else "nothing"))
+            cb = next((x for x in encl if any(x is h for h in handed)), None)
+            if cb is None:
+                r.violation(nmf, nmf.loc(c), "the initial children are packed outside the contents callable that "
+                            "create_mutable_file invokes with the new file node (writekey %s): the node's write key is not "
+                            "available there, so the children's write caps cannot be encrypted under it"
+                            % (src(nmf, wk) if wk is not None else "missing"))
+                continue
+            cb_params = [x.arg for x in cb.args.posonlyargs + cb.args.args]
+            if not cb_params:
+                r.violation(nmf, nmf.loc(c), "the contents callable takes no node parameter")
+                continue
+            P = cb_params[0]
+            # follow local copies inside a nested def
+            wk_r = wk
+            if isinstance(cb, (ast.FunctionDef, ast.AsyncFunctionDef)) and cb.name in nmf.nested:
+                cbd = def_exprs(nmf.nested[cb.name])
+                for _hop in range(3):
+                    if isinstance(wk_r, ast.Name) and wk_r.id != P and len(cbd.get(wk_r.id, [])) == 1:
+                        wk_r = cbd[wk_r.id][0]
+            if wk_r is None or never_truthy(wk_r) or P not in names_in(wk_r):
+                r.violation(nmf, nmf.loc(c), "the initial children are packed with writekey %s, which is not the write key of "
+                            "the new file node %s: every child's write cap is dropped (or sealed under a key the directory "
+                            "cannot use) and the children read back read-only"
+                            % (src(nmf, wk) if wk is not None else "<missing>", P))
+                continue
+            if isinstance(wk_r, ast.Call) and isinstance(wk_r.func, ast.Attribute) and attr_path(wk_r.func.value) == P \
+                    and not wk_r.args and not wk_r.keywords:
+                getter = mfn.lookup(wk_r.func.attr)
+                if getter is None:
+                    raise AnchorVanished("MutableFileNode has no %s()" % wk_r.func.attr)
+                grets = [follow_copy(getter, n.ast.value) for n in reachable_returns(getter) if n.ast.value is not None]
+                paths = {attr_path(v) for v in grets}
+                if len(grets) != 1 or None in paths or not all(p.startswith("self.") for p in paths):
+                    raise AnalysisError("cannot tell which attribute MutableFileNode.%s() returns" % wk_r.func.attr)
+                key_attr = ".".join(next(iter(paths)).split(".")[:2])
+            elif isinstance(wk_r, ast.Attribute) and attr_path(wk_r) and attr_path(wk_r).startswith(P + "."):
+                key_attr = "self." + attr_path(wk_r).split(".")[1]
+            else:
+                raise AnalysisError("cannot tell which attribute of the new node %s reads" % src(nmf, wk))
+            # what the callable returns contains the packed string
+            if isinstance(cb, ast.Lambda):
+                outs = [cb.body]
+            else:
+                outs = [x.value for x in own_nodes(cb) if isinstance(x, ast.Return) and x.value is not None]
+            ok = bool(outs)
+            for o in outs:
+                if isinstance(cb, ast.Lambda):
+                    ok = ok and any(x is c for x in ast.walk(o))
+                else:
+                    ok = ok and any(x is c for x in closure(nmf.nested[cb.name], [o])[1])
+            r.require(ok, nmf, nmf.loc(c), "the contents callable does not return the packed children")
+        # (b) create_mutable_file hands its contents to create_with_keys
+        cw_params = first_positional_params(cwk)
+        if "contents" not in cw_params:
+            raise AnchorVanished("create_with_keys has no contents parameter")
+        cpos = cw_params.index("contents")
+        links = []
+        for reg in registrations(cmf):
+            if reg.kind in ("cb", "both") and isinstance(reg.target, ast.Attribute) and reg.target.attr == "create_with_keys":
+                kw = kwarg(reg.call, "contents")
+                links.append((reg.call, kw if kw is not None else (reg.args[cpos - 1] if 0 < cpos <= len(reg.args) else None)))
+        for c in calls_in_func(cmf, "create_with_keys", into_lambda=True):
+            links.append((c, arg(c, cpos, "contents")))
+        if not links:
+            raise AnchorVanished("create_mutable_file no longer reaches create_with_keys")
+        cmn = N(cmf)
+        for (c, a) in links:
+            r.site(cmf, c, "contents handed on")
+            r.require(a is not None and cmn.norm(a) == "contents", cmf, cmf.loc(c), "create_mutable_file hands %s to "
+                      "create_with_keys instead of its contents argument: the initial children of a new directory are not "
+                      "what is uploaded" % (src(cmf, a) if a is not None else "nothing"))
+        # (c) create_with_keys: the key is stored before the callable is invoked
+        if key_attr is not None:
+            wcfg = cwk.cfg()
+
+            def invokes_param(fn, pname, depth=2):
+                """Call nodes of `fn` that call its parameter `pname`, directly or through a method of the class."""
+                out = []
+                for call in calls_in_func(fn):
+                    if isinstance(call.func, ast.Name) and call.func.id == pname:
+                        out.append((call, call, fn))
+                    elif depth > 0 and isinstance(call.func, ast.Attribute) and attr_path(call.func.value) == "self":
+                        m = mfn.lookup(call.func.attr)
+                        if m is None:
+                            continue
+                        mp = first_positional_params(m)
+                        for i, a in enumerate(call.args):
+                            if isinstance(a, ast.Name) and a.id == pname and i < len(mp):
+                                for (_c, leaf, lf) in invokes_param(m, mp[i], depth - 1):
+                                    out.append((call, leaf, lf))
+                        for k in call.keywords:
+                            if isinstance(k.value, ast.Name) and k.value.id == pname and k.arg in mp:
+                                for (_c, leaf, lf) in invokes_param(m, k.arg, depth - 1):
+                                    out.append((call, leaf, lf))
+                return out
+            inv = invokes_param(cwk, "contents")
+            if not inv:
+                raise AnchorVanished("create_with_keys no longer invokes the initial-contents callable")
+
+            def key_stored(n):
+                if key_attr not in node_stores(n):
+                    return False
+                v = assign_value(n, key_attr)
+                return not (isinstance(v, ast.Constant) and v.value is None)
+
+            def key_cleared(n):
+                v = assign_value(n, key_attr)
+                return key_attr in node_stores(n) and isinstance(v, ast.Constant) and v.value is None
+            seen_calls = set()
+            for (call, leaf, lf) in inv:
+                if id(call) in seen_calls:
+                    continue
+                seen_calls.add(id(call))
+                tn = node_of(wcfg, call)
+                r.site(cwk, call, "callable invoked")
+                for (t, w) in find_path_avoiding(wcfg, lambda x, _t=tn: x is _t, gate_node=key_stored, kill=key_cleared):
+                    r.violation(cwk, cwk.loc(t.ast), "create_with_keys invokes the initial-contents callable (%s) on a path "
+                                "that has not stored %s yet: NodeMaker.create_new_mutable_directory packs the initial "
+                                "children with get_writekey() of this node, so their write caps are written as empty rw "
+                                "fields and the children read back read-only (path: %s)"
+                                % (src(cwk, call), key_attr, w.brief()), w)
+            for (call, leaf, lf) in inv:
+                a0 = leaf.args[0] if leaf.args else None
+                r.require(a0 is not None and attr_path(a0) == "self", lf, lf.loc(leaf), "the initial-contents callable is "
+                          "invoked with %s instead of the node being created" % (src(lf, a0) if a0 is not None else "nothing"))
+                # the result of the callable is what the method returns / what is uploaded
+                if lf is not cwk:
+                    rets = [FlowNorm(lf).resolve(n, n.ast.value) for n in reachable_returns(lf) if n.ast.value is not None]
+                    r.require(any(v is leaf for v in rets), lf, lf.loc(leaf), "%s does not return what the initial-contents "
+                              "callable produced" % short(lf))
+            ups = calls_in_func(cwk, "_upload")
+            if not ups:
+                raise AnchorVanished("create_with_keys no longer calls _upload")
+            for u_ in ups:
+                r.site(cwk, u_, "upload")
+                a0 = arg(u_, 0, "initial_contents")
+                r.require(a0 is not None and any(any(x is call for (call, _l, _f) in inv) for x in closure(cwk, [a0])[1]),
+                          cwk, cwk.loc(u_), "create_with_keys uploads %s, not the result of the initial-contents callable"
+                          % (src(cwk, a0) if a0 is not None else "nothing"))
+        # (d) pack_children forwards the key
+        pch = idx.func("dirnode:pack_children")
+        pps = first_positional_params(pch)
+        if len(pps) < 2:
+            raise AnchorVanished("pack_children no longer takes (children, writekey)")
+        for c in calls_in_func(pch, "_pack_normalized_children"):
+            r.site(pch, c, "key forwarded")
+            a1 = arg(c, 1, "writekey")
+            r.require(a1 is not None and N(pch).norm(a1) == pps[1], pch, pch.loc(c), "pack_children hands writekey %s to "
+                      "_pack_normalized_children instead of the key it was given" % (src(pch, a1) if a1 is not None else "<missing>"))
+        # (e) DirectoryNode: the key of the writer is the key of the reader
+        pcn = idx.func(DN + "._pack_contents")
+        dec = idx.func(DN + "._decrypt_rwcapdata")
+        wcalls = calls_in_func(pcn, "_pack_normalized_children")
+        rcalls = calls_in_func(dec, "mutable_rwcap_key_hash")
+        if not wcalls or len(rcalls) != 1:
+            raise AnchorVanished("DirectoryNode._pack_contents / _decrypt_rwcapdata lost their key expressions")
+        rk = arg(rcalls[0], 1, "writekey")
+        rks = N(dec).norm(rk) if rk is not None else None
+        r.site(dec, rcalls[0], "reader key")
+        for c in wcalls:
+            r.site(pcn, c, "writer key")
+            a1 = arg(c, 1, "writekey")
+            s1 = N(pcn).norm(a1) if a1 is not None else None
+            r.require(s1 is not None and s1 == rks, pcn, pcn.loc(c), "the directory is written with key %s but its rw fields "
+                      "are decrypted with %s" % (s1, rks))
